@@ -96,9 +96,11 @@ _CMP = {
 }
 
 
-def ev(node, env=None, strict=False):
-    """Evaluate node.  env maps names to values.  strict=True raises AnalysisError on opaque parts."""
+def ev(node, env=None, strict=False, calls=None):
+    """Evaluate node.  env maps names to values.  strict=True raises AnalysisError on opaque parts.
+    calls: optional {plain function name: host callable} applied to concrete positional arguments (e.g. int, abs, min, max)."""
     env = env or {}
+    calls = calls or {}
 
     def fail(n, why):
         if strict:
@@ -163,6 +165,14 @@ def ev(node, env=None, strict=False):
             if is_concrete(v) and isinstance(v, (list, tuple, set, frozenset, dict)):
                 return {"set": set, "tuple": tuple, "list": list, "frozenset": frozenset}[n.func.id](v)
             return fail(n, "container of opaque")
+        if isinstance(n, ast.Call) and isinstance(n.func, ast.Name) and n.func.id in calls and not n.keywords:
+            vals = [go(a) for a in n.args]
+            if any(isinstance(v, (Opaque, NameRef)) for v in vals):
+                return fail(n, "opaque argument")
+            try:
+                return calls[n.func.id](*vals)
+            except Exception as e:  # noqa
+                return fail(n, f"{type(e).__name__}: {e}")
         if isinstance(n, ast.BinOp) and type(n.op) in _BIN:
             a, b = go(n.left), go(n.right)
             if isinstance(a, (Opaque, NameRef)) or isinstance(b, (Opaque, NameRef)):
